@@ -40,6 +40,8 @@ var TamperKinds = []string{
 	"wildcard-replay-forged-nsec", // same, with a forged unsigned NSEC owned outside the zone that spans the name
 	"dname-cname-prefix",          // DNAME answer: the unsigned synthesised CNAME's leading labels altered (suffix and length kept)
 	"forge-self-signer",           // answer data altered; its RRSIGs name the record's own owner as signer (a non-cut name inside the zone)
+	"flip-last-rrset",             // only the RRset that sorts last (owner, type) is altered; every other RRset of the response stays genuine
+	"sig-corrupt-last",            // only the signatures covering the RRset that sorts last are corrupted
 }
 
 // DenialKinds are the C02 tamperings: every record they add is a genuine, correctly
@@ -56,6 +58,8 @@ var DenialKinds = []string{
 	"foreign-denial",        // denial records of a sibling/child zone
 	"forge-unsigned",        // answer data changed and everything DNSSEC stripped (pairs with nods-for-secure)
 	"wildcard-replay", "wildcard-replay-other-nsec", "wildcard-replay-forged-nsec",
+	"ds-nodata-from-child", // DS question: the parent's answer replaced by the child side of the cut (the child's own SOA and apex NSEC/NSEC3, genuinely signed by the child: no DS bit, because DS lives in the parent)
+	"nx-below-delegation", // referral replaced by NXDOMAIN "proven" with the parent's own NSEC/NSEC3 at the delegation point (RFC 6840 4.1: an ancestor delegation record denies nothing below the cut)
 	"nx-retired-salt", // NXDOMAIN for a name that exists, "proven" with genuine NSEC3 records of the zone's previous chain (other salt, same length)
 }
 
@@ -232,6 +236,64 @@ func Apply(kind string, a *Answer, attacker, other *Zone) (*dns.Msg, bool) {
 				}
 			}
 			m.Extra = append(resign(ex), opt)
+		}
+	case "flip-last-rrset", "sig-corrupt-last":
+		// a validator that authenticates RRset by RRset must not let the good ones vouch for
+		// the last one
+		sec := &m.Answer
+		if len(m.Answer) == 0 {
+			sec = &m.Ns
+		}
+		lastOwner, lastType := "", uint16(0)
+		for _, r := range *sec {
+			if isSig(r) || r.Header().Rrtype == dns.TypeOPT {
+				continue
+			}
+			o := strings.ToLower(r.Header().Name)
+			if lastOwner == "" || o > lastOwner || (o == lastOwner && r.Header().Rrtype > lastType) {
+				lastOwner, lastType = o, r.Header().Rrtype
+			}
+		}
+		if lastOwner == "" {
+			return nil, false
+		}
+		if kind == "flip-last-rrset" {
+			if sec != &m.Answer {
+				return nil, false
+			}
+			only := &Answer{Zone: a.Zone, Kind: a.Kind, Child: a.Child, Msg: &dns.Msg{MsgHdr: m.MsgHdr, Question: m.Question}}
+			var rest []dns.RR
+			for _, r := range m.Answer {
+				if !isSig(r) && strings.ToLower(r.Header().Name) == lastOwner && r.Header().Rrtype == lastType {
+					only.Msg.Answer = append(only.Msg.Answer, r)
+				} else {
+					rest = append(rest, r)
+				}
+			}
+			flipped, ok := Apply("flip-rdata", only, attacker, other)
+			if !ok {
+				return nil, false
+			}
+			m.Answer = append(rest, flipped.Answer...)
+			changed = true
+		} else {
+			*sec = mapSection(*sec, func(r dns.RR) dns.RR {
+				if sg, ok := r.(*dns.RRSIG); ok && strings.ToLower(sg.Hdr.Name) == lastOwner && sg.TypeCovered == lastType {
+					b := []byte(sg.Signature)
+					if len(b) > 12 {
+						for _, i := range []int{5, 11} {
+							if b[i] == 'A' {
+								b[i] = 'B'
+							} else {
+								b[i] = 'A'
+							}
+						}
+					}
+					sg.Signature = string(b)
+					changed = true
+				}
+				return r
+			})
 		}
 	case "forge-self-signer":
 		if a.Kind != "answer" {
@@ -475,6 +537,78 @@ func Apply(kind string, a *Answer, attacker, other *Zone) (*dns.Msg, bool) {
 			m.Ns = append(m.Ns, withSig(z, d)...)
 		}
 		changed = true
+	case "ds-nodata-from-child":
+		// What a child-only server says when asked for its own DS: NODATA proven by its apex
+		// record, which has SOA and no DS. It is not a proof that the parent publishes no DS.
+		if z == nil || len(m.Question) != 1 || m.Question[0].Qtype != dns.TypeDS {
+			return nil, false
+		}
+		qn := dns.CanonicalName(m.Question[0].Name)
+		d, ok := z.Cuts[qn]
+		if !ok || len(z.dsFor(d)) == 0 {
+			return nil, false
+		}
+		child := z.world.Zones[qn]
+		if child == nil || !child.Signed {
+			return nil, false
+		}
+		var apex dns.RR
+		if child.NSEC3 {
+			if r := child.nsec3Matching(qn); r != nil {
+				apex = r
+			}
+		} else if r := child.nsecMatching(qn); r != nil {
+			apex = r
+		}
+		if apex == nil {
+			return nil, false
+		}
+		m.Answer, m.Ns = nil, nil
+		m.Rcode = dns.RcodeSuccess
+		m.Authoritative = true
+		soa := dns.Copy(child.soa()[0])
+		m.Ns = append(m.Ns, soa)
+		m.Ns = append(m.Ns, child.sigsFor([]dns.RR{soa})...)
+		m.Ns = append(m.Ns, withSig(child, apex)...)
+		changed = true
+	case "nx-below-delegation":
+		if a.Kind != "referral" || z == nil || !z.Signed || len(m.Question) != 1 {
+			return nil, false
+		}
+		qn := dns.CanonicalName(m.Question[0].Name)
+		if qn == a.Child || !dns.IsSubDomain(a.Child, qn) {
+			return nil, false
+		}
+		var rec dns.RR
+		if z.NSEC3 {
+			if r := z.nsec3Matching(a.Child); r != nil {
+				rec = r
+			}
+		} else if r := z.nsecMatching(a.Child); r != nil {
+			rec = r
+		}
+		if rec == nil {
+			return nil, false
+		}
+		m.Answer, m.Ns, m.Extra = nil, nil, keepOPT(m.Extra)
+		m.Rcode = dns.RcodeNameError
+		m.Authoritative = true
+		soa := dns.Copy(z.soa()[0])
+		m.Ns = append(m.Ns, soa)
+		m.Ns = append(m.Ns, z.sigsFor([]dns.RR{soa})...)
+		m.Ns = append(m.Ns, withSig(z, rec)...)
+		if z.NSEC3 {
+			// closest encloser = the delegation point itself (matching record above); add the
+			// records covering the next closer name and the wildcard, genuine ones of the chain
+			nc := qn
+			for n := parentName(qn); n != a.Child && dns.IsSubDomain(a.Child, n); n = parentName(n) {
+				nc = n
+			}
+			for _, d := range dedupRR([]dns.RR{z.nsec3Covering(nc), z.nsec3Covering("*." + a.Child)}) {
+				m.Ns = append(m.Ns, withSig(z, d)...)
+			}
+		}
+		changed = true
 	case "nx-retired-salt":
 		// The zone re-salted its NSEC3 chain; the records of the retired chain are genuine and
 		// their signatures still valid. An interval of the retired ring "covers" any hash value,
@@ -645,4 +779,15 @@ func StepOf(a *Answer, qtype uint16) string {
 		return "negative"
 	}
 	return "answer"
+}
+
+// keepOPT returns only the OPT record of an additional section.
+func keepOPT(extra []dns.RR) []dns.RR {
+	var out []dns.RR
+	for _, r := range extra {
+		if r.Header().Rrtype == dns.TypeOPT {
+			out = append(out, r)
+		}
+	}
+	return out
 }
